@@ -50,9 +50,9 @@ theorem source_verifyIntegrity_refines_spec (env : c01i.Env) (sigBlob : signer.B
       | mk content e2 =>
         cases e2 with
         | some e =>
-          by_cases hk : ((c01i.isEnvelopeNotFound (some e)) || (c01i.isInvalidSignature (some e)) ||
-              (c01i.isIntegrityError (some e))) = true <;>
-            simp [Id.run, GoLite.idPure, hp, hv, hk]
+          cases h1 : c01i.isEnvelopeNotFound (some e) <;> cases h2 : c01i.isInvalidSignature (some e) <;>
+            cases h3 : c01i.isIntegrityError (some e) <;>
+            simp [Id.run, GoLite.idPure, hp, hv, h1, h2, h3]
         | none =>
           by_cases hc : (GoLite.deref content).Payload.ContentType = envelope.MediaTypePayloadV1 <;>
             simp [Id.run, GoLite.idPure, hp, hv, hc, envelope.ValidatePayloadContentType, default_error]
